@@ -59,31 +59,31 @@ type interpreter struct {
 	stubs    map[string]value
 	mapOrder func(m *omap, e []*mentry) []*mentry
 
-	funcsEntered map[string]int
-	intrHit      map[string]int
-	opaqueFmt    int
-	nativeState  map[string]interface{}
-	onceDone     map[*value]bool
-	errorsNewT   types.Type
-	monoClock    *smt.Term
-	env          map[string]string
-	onceGlobals  map[*ssa.Global]bool
-	initAllowed  map[*ssa.Package]bool
-	params       map[string]int
-	condSignals  int
-	opaqueInts   bool
-	jsonSyms     map[string]jsonSym
-	pureCache    map[*ssa.Function]purity
-	noMerge      bool
-	mergeDepth   int
-	merges       int
-	mergeAborts  int
-	memoHits     int
-	crossMemo    map[string]value
-	auxRegistry  map[string]auxEntry
-	sideCache    map[string]bool
+	funcsEntered  map[string]int
+	intrHit       map[string]int
+	opaqueFmt     int
+	nativeState   map[string]interface{}
+	onceDone      map[*value]bool
+	errorsNewT    types.Type
+	monoClock     *smt.Term
+	env           map[string]string
+	onceGlobals   map[*ssa.Global]bool
+	initAllowed   map[*ssa.Package]bool
+	params        map[string]int
+	condSignals   int
+	opaqueInts    bool
+	jsonSyms      map[string]jsonSym
+	pureCache     map[*ssa.Function]purity
+	noMerge       bool
+	mergeDepth    int
+	merges        int
+	mergeAborts   int
+	memoHits      int
+	crossMemo     map[string]value
+	auxRegistry   map[string]auxEntry
+	sideCache     map[string]bool
 	heapFreeCache map[*ssa.Function]bool
-	zeroStubs    map[string]bool
+	zeroStubs     map[string]bool
 }
 
 type goroutine struct {
